@@ -58,6 +58,7 @@ type aEvent struct {
 	JumpMin  int // absolute wall-clock jump target (minute of day), with Dt == -1
 	JumpK    int
 	UpJumpMs uint32     // camera uptime jumps forward by this much before the frame
+	Restart  bool       // ('C' events) the camera was power-cycled: its uptime clock starts again
 	BZ       int        // number of border pixels set to zero (must not matter)
 	FFC      bool       // an FFC happens just before this frame
 	Pix      [][]uint16 // explicit content (detector-focused scenarios); nil → generated
@@ -249,7 +250,7 @@ func genRecScenario(r *verifsim.Run, focus string) *aScenario {
 				e.BadX = r.Range(c.Edge, c.W-c.Edge-1)
 				e.BadY = r.Range(c.Edge, c.H-c.Edge-1)
 			} else if pClear > 0 && r.Chance(pClear, 1000) {
-				sc.Ev = append(sc.Ev, aEvent{Kind: 'C', DiskOK: true, CreateOK: true})
+				sc.Ev = append(sc.Ev, aEvent{Kind: 'C', DiskOK: true, CreateOK: true, Restart: r.Chance(1, 2)})
 			} else if pTest > 0 && r.Chance(pTest, 1000) {
 				sc.Ev = append(sc.Ev, aEvent{Kind: 'T', DiskOK: true, CreateOK: true})
 			}
@@ -490,6 +491,10 @@ func (w *aWorld) exec(opt aOpts) *zz.Trace {
 					ev.ErrKind = 'e'
 				}
 			case 'C':
+				if e.Restart {
+					// the marker follows a power cycle: the telemetry clock restarted (20 s ago, with an FFC at 1 s)
+					w.upMs, w.lastFFCMs = 20000, 1000
+				}
 				w.mp.Reset(w.cam)
 				w.shadow.Reset(w.cam)
 			case 'T':
